@@ -216,6 +216,79 @@ def corr_memio(ctx, chk, broken):
     return out, cov
 
 
+def corr_cim(ctx, chk, broken):
+    """the BUILT cim2bin / cim2cas binaries on generated files vs the hand-written model"""
+    import os, random, shutil, subprocess
+    tmp = os.path.join(chk.WORK, 'cimtmp')
+    shutil.rmtree(tmp, ignore_errors=True)
+    os.makedirs(tmp)
+    out = []
+    for tool in ('cim2bin', 'cim2cas'):
+        rc, o = chk.sh(['go', 'build', '-o', os.path.join(chk.WORK, tool), './cmd/' + tool], cwd=chk.REPO, env=chk.GOENV, timeout=600)
+        if rc != 0:
+            return [{'stream': 'cim', 'id': tool + '-build', 'vector': o[-1500:], 'real': 'does not build', 'other': None}], {'evaluations': 0, 'distinct_nontrivial': 0}
+    rnd = random.Random(ctx.seed * 7919 + 11)
+    n = 400 if ctx.tier == 'thorough' else 60
+    lens = [1, 2, 3, 255, 256, 257, 4095, 4096, 0x7fff, 0x8000, 0xffff, 0x10000]
+    cases = []
+    for i in range(n):
+        ln = lens[i % len(lens)] if i < 3 * len(lens) else rnd.choice([rnd.randint(1, 64), rnd.randint(1, 70000) % 65536 + 1, rnd.choice(lens)])
+        maxoff = 0x10000 - ln
+        off = rnd.choice([0, maxoff, max(0, maxoff - 1), min(maxoff, 0xa000), rnd.randint(0, maxoff)])
+        kind = rnd.randint(0, 3)
+        if ln >= 0x8000:
+            body = bytes((j * 31 + ln + i) & 0xff for j in range(ln))
+        else:
+            body = bytes(rnd.randrange(256) for _ in range(ln))
+        nl = rnd.choice([0, 1, 5, 6, 7, 8, 12, rnd.randint(0, 12)])
+        nam = bytes(rnd.choice(b'ABCxyz019 _-.') for _ in range(nl))
+        fname = rnd.choice(['a.cim', 'img%02d.cim' % (i % 100), 'x', 'sixsix', 'seven77', 'LONGFILENAME.cim'])
+        cases.append((i, off, body, nam, fname))
+    lines, real = [], []
+    classes = set()
+    for (i, off, body, nam, fname) in cases:
+        d = os.path.join(tmp, str(i))
+        os.makedirs(d)
+        with open(os.path.join(d, fname), 'wb') as f:
+            f.write(body)
+        bhex = body.hex() or '-'
+        # cim2bin
+        r = subprocess.run([os.path.join(chk.WORK, 'cim2bin'), '-cim', fname, '-bin', 'out.bin', '-off', str(off)], cwd=d,
+                           stdout=subprocess.PIPE, stderr=subprocess.STDOUT, timeout=60)
+        got = open(os.path.join(d, 'out.bin'), 'rb').read().hex() if r.returncode == 0 and os.path.exists(os.path.join(d, 'out.bin')) else 'exit=%d %s' % (r.returncode, r.stdout[-100:])
+        lines.append(f'bin {off:x} {bhex}')
+        real.append((f'bin#{i} len={len(body)} off={off:#06x}', got))
+        # cim2cas
+        args = [os.path.join(chk.WORK, 'cim2cas'), '-cim', fname, '-cas', 'out.cas', '-off', str(off)]
+        if nam:
+            args += ['-nam', nam.decode()]
+        r = subprocess.run(args, cwd=d, stdout=subprocess.PIPE, stderr=subprocess.STDOUT, timeout=60)
+        got = open(os.path.join(d, 'out.cas'), 'rb').read().hex() if r.returncode == 0 and os.path.exists(os.path.join(d, 'out.cas')) else 'exit=%d %s' % (r.returncode, r.stdout[-100:])
+        lines.append(f'cas {off:x} {nam.hex() or "-"} {fname.encode().hex()} {bhex}')
+        real.append((f'cas#{i} len={len(body)} off={off:#06x} nam={nam!r} file={fname}', got))
+        classes.add((min(len(body), 300) if len(body) < 300 else (len(body) >> 12) + 300, min(len(nam), 7), off == 0, off == 0x10000 - len(body)))
+        shutil.rmtree(d, ignore_errors=True)
+    rc, mo = chk.sh(['lake', 'env', 'lean', '--run', 'DriverCim.lean'], cwd=chk.LEAN, timeout=1800, inp='\n'.join(lines) + '\n')
+    model = [l for l in mo.splitlines() if l and not l.startswith('WARNING')]
+    if len(model) != len(lines):
+        out.append({'stream': 'cim', 'id': 'driver', 'vector': mo[-1500:], 'real': f'{len(lines)} requests', 'other': f'{len(model)} answers'})
+    for (cid, got), want, line in zip(real, model, lines):
+        if got != want:
+            k = next((j for j in range(0, min(len(got), len(want)), 2) if got[j:j + 2] != want[j:j + 2]), min(len(got), len(want)))
+            out.append({'stream': 'cim', 'id': cid, 'vector': line if len(line) < 3000 else line[:200] + f'... ({len(line)} chars; body = bytes((j*31+len+i)&0xff))',
+                        'real': f'{len(got) // 2} bytes, first difference at byte {k // 2}: {got[k:k + 16]}',
+                        'other': f'{len(want) // 2} bytes: {want[k:k + 16]}'})
+            if len(out) >= 3:
+                break
+    shutil.rmtree(tmp, ignore_errors=True)
+    cov = {'evaluations': len(lines), 'distinct_nontrivial': len(classes),
+           'rule': 'one evaluation = one run of the built cim2bin or cim2cas binary (go build from /repo) on a generated image file; lengths {1,2,3,255..257,4095,4096,0x7fff,0x8000,0xffff,0x10000} and random, '
+                   'offsets {0, largest that fits, one less, 0xA000, random}, names of length 0 (default = file name),1,5,6,7,8,12; whole output compared byte for byte with the model; '
+                   'distinct = distinct (length class, name length class, offset edge) combinations',
+           'correspondence': {'cases': len(cases), 'runs': len(lines)}}
+    return out, cov
+
+
 PROPS = {
     'C01': {
         'targets': ['Z80.Props.C01'],
@@ -321,6 +394,15 @@ PROPS = {
                         'slices are created with cap = len (a Put may otherwise write into spare capacity)',
                         'nil MapMemory: reads give 0xC7, writes panic, Equal(nil,nil) is true — recorded in the model; the property speaks about initialised values'],
         'explanation': 'for EVERY slice length and EVERY history of Set/Put/Out, Get/In returns the value last written or 0 (0 beyond the slice, writes there ignored); MapMemory likewise with 0xC7, wrapping Put, Clear; Clone allocates a fresh object (independence); Equal iff same contents',
+    },
+    'C19': {
+        'targets': ['Z80.Props.C19'],
+        'count': ['Z80/Props/C19.lean'],
+        'correspond': corr_cim,
+        'assumptions': ['cmd/cim2bin and cmd/cim2cas are modelled by hand (Z80.Spec.Cim) as functions from (offset, image, name, file name) to output bytes; tied to the code by running the built binaries',
+                        'file system, flag parsing and bufio are exercised by the correspondence, not modelled',
+                        'inputs whose end address does not fit in 16 bits are outside the property (the model records the uint16 wrap-around of the code)'],
+        'explanation': 'for EVERY image, offset and name: cim2bin = FE + start/end/exec words + unmodified body, end = start+len-1 when it fits; cim2cas = sync header, ten D0, six-character name (truncated/space padded), sync header, words, unmodified body',
     },
     'C16': {
         'targets': ['Z80.Props.C16'],
